@@ -69,7 +69,8 @@ def r1(cx):
         plain = src is not None and all(re.search(r"::iter$|::into_iter$|Iterator::enumerate$|Iterator>::enumerate$|Deref>::deref$", a) for a in src[2])
         cx.ob("C16.R1", "%s:loop" % pk, over_in and plain, "%s iterates `self.in` with a plain enumerate (no filter / skip / take)" % pk, nxt[0].loc, adaptors=src[2] if src else None)
         # the push is in the loop body and not under any condition other than the loop itself / `?`
-        gs = [g for g in guards_of(m, f, push[0].b, mode="alias") if not g.neutral]
+        from vlib.model import conditions_of
+        gs = [g for g in conditions_of(m, f, push[0].b, mode="alias") if not g.neutral]
         extra = [gdesc(m, g) for g in gs if not (g.root[0] == "discr" and g.root[1][0] == "call" and (ITER_NEXT.search(g.root[1][1]) or T.TRY_BRANCH.search(g.root[1][1])))]
         loops = natural_loops(f)
         in_loop = any(push[0].b in body and nxt[0].b in body for _, body in loops)
